@@ -229,9 +229,14 @@ func Run(c *engine.Ctx) {
 		rec := map[string]interface{}{"version": m.Version, "header_fields": len(m.Header), "default": m.Default, "credentials": len(m.Creds), "shape": what, "file_len": len(file)}
 		g := new(credentials.CCache)
 		var err error
-		if pn := safe(func() { err = g.Unmarshal(file) }); pn != "" {
+		// parsed from a buffer the caller overwrites right afterwards
+		inbuf := append([]byte{}, file...)
+		if pn := safe(func() { err = g.Unmarshal(inbuf) }); pn != "" {
 			c.Violate("parse", fmt.Sprintf("parse:v%d:panic:%s", m.Version, hdrClass(m)), map[string]interface{}{"panic": pn}, rec)
 			return
+		}
+		for i := range inbuf {
+			inbuf[i] = 0xEE
 		}
 		if err != nil {
 			c.Violate("parse", fmt.Sprintf("parse:v%d:error:%s", m.Version, hdrClass(m)), map[string]interface{}{"err": err.Error()}, rec)
@@ -259,7 +264,9 @@ func Run(c *engine.Ctx) {
 				return
 			}
 		}
-		queries := [][]string{{"HTTP/a.r.com"}, {"HTTP", "a.r.com"}, {"krbtgt", "R.COM"}, {"host", "b.r.com"}, {"HTTP"}, {"HTTP", "a.r.com", "x"}, {"nosuch"}, {}}
+		queries := [][]string{{"HTTP/a.r.com"}, {"HTTP", "a.r.com"}, {"krbtgt", "R.COM"}, {"host", "b.r.com"}, {"HTTP"}, {"HTTP", "a.r.com", "x"}, {"nosuch"}, {},
+			// the server name of the alphabet's configuration entry: lookups see configuration entries too (only GetEntries filters them)
+			{"krb5_ccache_conf_data", "fast_avail", "krbtgt/R.COM@R.COM"}}
 		for _, q := range queries {
 			want := -1
 			for i, cr := range m.Creds {
@@ -406,7 +413,14 @@ func clientFromCache(c *engine.Ctx, r *rand.Rand, cfg *config.Config, evals *int
 			mk([]string{"cifs", "c.r.com"}, "R.COM", now+7200), noKvno(mk([]string{"ldap", "d.r.com"}, "R.COM", now+7200)),
 			// the same services written again later (what a renewal or a re-acquisition appends): the cache's
 			// current credential for a service is the one written last, whichever lives longer
-			mk([]string{"cifs", "c.r.com"}, "R.COM", now+3600), mk([]string{"ldap", "d.r.com"}, "R.COM", now+9000), mk([]string{"krbtgt", "R.COM"}, "R.COM", now+30000)}
+			mk([]string{"cifs", "c.r.com"}, "R.COM", now+3600), mk([]string{"ldap", "d.r.com"}, "R.COM", now+9000), mk([]string{"krbtgt", "R.COM"}, "R.COM", now+30000),
+			// a credential whose client is not the cache's default principal (e.g. obtained through S4U or copied in): it is
+			// in the cache, so the client built from the cache holds it too
+			func() ccachefmt.Credential {
+				cr := mk([]string{"imap", "e.r.com"}, "R.COM", now+7200)
+				cr.Client = ccachefmt.Principal{NameType: 1, Realm: "OTHER.COM", Components: []string{"someone", "else"}}
+				return cr
+			}()}
 		last := map[string]int{}
 		for i, cr := range creds {
 			if !cr.IsConfig() {
